@@ -532,7 +532,26 @@ def _fresh_vectors(ctx, server):
                         and isinstance(sub.targets[0], ast.Name):
                     defs.setdefault(sub.targets[0].id, []).append(sub.value)
 
-            def fresh(expr, depth=0):
+            def fresh(expr, depth=0, defs=defs, func=func):
+                if isinstance(expr, ast.Call) and isinstance(
+                        expr.func, ast.Attribute) and \
+                        N.txt(expr.func.value) == 'self' and depth < 3:
+                    # a helper of the class: every value it returns
+                    inner = index.find_method(func.cls, expr.func.attr) \
+                        if func.cls is not None else None
+                    if inner is not None:
+                        idefs = {}
+                        for sub2 in K.walk_no_nested(inner.raw):
+                            if isinstance(sub2, ast.Assign) and \
+                                    len(sub2.targets) == 1 and isinstance(
+                                        sub2.targets[0], ast.Name):
+                                idefs.setdefault(sub2.targets[0].id,
+                                                 []).append(sub2.value)
+                        rets = [r.value for r in K.walk_no_nested(inner.raw)
+                                if isinstance(r, ast.Return)]
+                        return bool(rets) and all(
+                            r is not None and fresh(r, depth + 1, idefs,
+                                                    inner) for r in rets)
                 if isinstance(expr, ast.Call):
                     name = (dotted_text(expr.func) or '').split('.')[-1]
                     if isinstance(expr.func, ast.Attribute) and \
@@ -543,7 +562,8 @@ def _fresh_vectors(ctx, server):
                     return True         # arithmetic builds a new array
                 if isinstance(expr, ast.Name) and depth < 3 and \
                         expr.id in defs:
-                    return all(fresh(v, depth + 1) for v in defs[expr.id])
+                    return all(fresh(v, depth + 1, defs, func)
+                               for v in defs[expr.id])
                 return False
             for sub in K.walk_no_nested(func.raw):
                 if isinstance(sub, ast.Assign) and any(
